@@ -74,6 +74,24 @@ def plan(tier, seed):
     for mt in metrics5:
         for a, b in E.chunks(E.n_sequences(4, 5), 128):
             shards.append(("feat", "1d", 5, mt, a, b))
+    # the classifier left by learn() (every random swap choice explored) is a trained forest too
+    for pi in range(24):
+        shards.append(("learn", pi))
+    # memory layout of the caller's matrix: Fortran order, transposed view, strided view
+    for lay in ("F", "T", "S"):
+        for a, b in E.chunks(E.n_sequences(9, 3), 243):
+            shards.append(("featlay", 3, lay, a, b))
+        for a, b in E.chunks(E.n_sequences(9, 4), 729):
+            shards.append(("featlay", 4, lay, a, b))
+    # exception safety: the SAME object first runs a fit that is interrupted at every one of its
+    # metric calls / matrix accesses, then the valid fit under test
+    for a, b in E.chunks(E.n_graphs(4, 2), 8):
+        shards.append(("crash", "pre", a, b))
+    for a, b in E.chunks(E.n_sequences(4, 4), 32):
+        shards.append(("crash", "features", a, b))
+    # class identifiers that are not 0..K-1 (large, non-consecutive values)
+    for a, b in E.chunks(E.n_graphs(4, 3), 250):
+        shards.append(("glab", 4, 3, True, a, b))
     # seven samples (a heap of three full levels): every sequence over {0..3}, two labelings
     for a, b in E.chunks(E.n_sequences(4, 7), 1024):
         shards.append(("feat7", 7, "euclidean", a, b))
@@ -136,6 +154,46 @@ def programs(shard, seed):
             for lab in labs:
                 yield {"model": "SupervisedOPF", "mode": "pre", "W": W,
                        "labels": list(E.rename_classes(lab, seed))}
+    elif kind == "featlay":
+        _, n, lay, a, b = shard
+        pts = E.lattice("2d", seed)
+        labs = E.labelings(n) if n == 3 else E.labelings(n, max_classes=2)
+        for si in range(a, b):
+            seq = E.sequence_at(len(pts), n, si)
+            X = [list(pts[i]) for i in seq]
+            for lab in labs:
+                yield {"model": "SupervisedOPF", "mode": "features", "X": X, "metric": "euclidean",
+                       "labels": list(E.rename_classes(lab, seed)), "layout": lay}
+    elif kind == "crash":
+        _, mode, a, b = shard
+        if mode == "pre":
+            table = E.value_table(seed, 2)
+            prevW = E.matrix_from_ranks(4, (1, 0, 1, 0, 0, 1), table).tolist()
+            for gi in range(a, b):
+                W = E.matrix_from_ranks(4, E.graph_ranks(4, 2, gi), table).tolist()
+                for lab in E.labelings(4, max_classes=2):
+                    cur = {"model": "SupervisedOPF", "mode": "pre", "W": W, "labels": list(lab)}
+                    prev = {"model": "SupervisedOPF", "mode": "pre", "W": prevW, "labels": [0, 1, 1, 0]}
+                    yield from sup.crash_cases(prev, cur)
+        else:
+            pts = E.lattice("1d", seed)
+            for si in range(a, b):
+                seq = E.sequence_at(4, 4, si)
+                X = [list(pts[i]) for i in seq]
+                for lab in ([0, 1, 0, 1], [0, 0, 1, 1]):
+                    cur = {"model": "SupervisedOPF", "mode": "features", "X": X, "metric": "euclidean",
+                           "labels": lab}
+                    prev = {"model": "SupervisedOPF", "mode": "features", "metric": "euclidean",
+                            "X": [[3.0], [0.0], [2.0], [1.5]], "labels": [0, 1, 1, 0]}
+                    yield from sup.crash_cases(prev, cur)
+    elif kind == "glab":
+        _, n, m, zero, a, b = shard
+        table = E.value_table(seed, m, zero=zero)
+        for gi in range(a, b):
+            W = E.matrix_from_ranks(n, E.graph_ranks(n, m, gi), table).tolist()
+            for lab in E.labelings(n):
+                yield {"model": "SupervisedOPF", "mode": "pre", "W": W,
+                       "labels": list(E.spread_classes(lab))}
     elif kind == "feat7":
         _, n, metric, a, b = shard
         pts = E.lattice("1d", seed)
@@ -231,6 +289,44 @@ def run_case(prog, res=None, model=None):
     return None
 
 
+def learn_case(prog):
+    """prog: {"learn": cfg, "script": RNG answers}.  Runs the real learn() and applies the forest
+    oracle to the classifier it leaves, with distances taken between the samples its nodes hold."""
+    import numpy as np
+    from mc import seams
+    from mc.props import c17
+    from opfython.models import SupervisedOPF
+    cfg = prog["learn"]
+    ch = seams.Chooser(prog["script"], 0)
+    Xt = np.array(cfg["Xt"], dtype=float).reshape(-1, 1)
+    Yt = np.array(cfg["Yt"], dtype=int)
+    Xv = np.array(cfg["Xv"], dtype=float).reshape(-1, 1)
+    Yv = np.array(cfg["Yv"], dtype=int)
+    o = SupervisedOPF("euclidean")
+    with c17.own_rng(ch):
+        try:
+            o.learn(Xt, Yt, Xv, Yv, n_iterations=cfg["iters"])
+        except Horizon:
+            raise
+        except Exception as ex:
+            return ch, viol(prog, "learn raised %r" % (ex,), "learn raised")
+    obs = sup.observe(o)
+    feats = [nd.features.copy() for nd in o.subgraph.nodes]
+    n = len(feats)
+    Wd = [[float(o.distance_fn(feats[a].copy(), feats[b].copy())) if a != b else 0.0 for b in range(n)]
+          for a in range(n)]
+    M = F.minimax_closure(Wd)
+    labels = [nd["label"] for nd in obs["nodes"]]
+
+    def oracle(_, S):
+        return [0.0 if t in S else min(M[s][t] for s in S) for t in range(n)]
+
+    prob, sym = sup.forest_problem(Wd, labels, n, obs, oracle)
+    if prob:
+        return ch, viol(prog, "classifier left by learn(): " + prob, "after learn: " + sym, obs)
+    return ch, None
+
+
 def viol(prog, prob, sym, obs=None):
     return {"check": "forest", "program": prog, "observed": obs if obs else prob,
             "allowed": "optimum-path forest of the flagged prototypes (minimax reference)",
@@ -244,13 +340,59 @@ def _key(prog):
     return sup.cache_key(prog) if prog["model"] in ("SupervisedOPF", "SemiSupervisedOPF") else None
 
 
+def run_learn(shard, seed, res):
+    from mc.explore import explore
+    from mc.props import c17
+    for cfg in c17.learn_configs(3, shard[1], seed):
+        found = []
+
+        def execute(ch):
+            prog = {"learn": cfg, "script": list(ch.script)}
+            with horizon(20.0):
+                ch2, v = learn_case_with(ch, cfg)
+            res.transitions += 1
+            if v:
+                v["program"] = {"learn": cfg, "script": [c for _, c in ch.points]}
+                found.append(v)
+            return v
+
+        out = explore(execute)
+        res.evaluations += out["executions"]
+        res.traces += out["executions"]
+        res.states += 1
+        res.nontrivial += out["executions"]
+        for v in found[:1]:
+            res.violations.append(v)
+        if res.full:
+            break
+    res.sample({"learn": cfg, "script": "all RNG answer sequences"}, 1)
+    return res
+
+
+def learn_case_with(ch, cfg):
+    # learn_case builds its own chooser from a script; here the explorer's chooser is used directly
+    from mc import seams
+    orig = seams.Chooser
+    try:
+        seams.Chooser = lambda script, default=0: ch
+        return learn_case({"learn": cfg, "script": []})
+    finally:
+        seams.Chooser = orig
+
+
 def run(shard, seed):
     res = Result()
+    if shard[0] == "learn":
+        return run_learn(shard, seed, res)
     k = 0
     for prog in programs(shard, seed):
         try:
             with horizon(10.0):
-                v = run_case(prog, res)
+                if "previous" in prog:
+                    v = sup.replay_with_history(lambda p, r=None, model=None: run_case(p, res if p is not prog.get("previous") else None, model), prog)
+                    res.transitions += 1
+                else:
+                    v = run_case(prog, res)
         except Horizon as hz:
             v = viol(prog, str(hz), "no termination")
         res.evaluations += 1
@@ -285,4 +427,6 @@ def run(shard, seed):
 
 
 def replay(case):
+    if "learn" in case["program"]:
+        return learn_case(case["program"])[1]
     return sup.replay_with_history(run_case, case["program"])
